@@ -213,11 +213,10 @@ def RoundTripStatement : Prop :=
 /-- **roundtrip_partial** (T2 on the fragment `Ty.frag`: primitives, alias references with or
     without type arguments (`'t`, `'t<a, b>`) — INCLUDING the argument-less ones named
     `int`/`bin`/`ref`, printed `<'int>` resp. `(<'int>)` by the
-    repairs dea6b02 / b32cfa9 —, `^` and `^N`, resources, the module's own default type `'` / `'<a, b>`, module types `'%m/n.t<a>`, tuples and PARTIAL types — named or not, with named or positional
-    fields —, function types, unions and intersections, nested WITHOUT BOUND):
+    repairs dea6b02 / b32cfa9 —, `^` and `^N`, resources, the module's own default type `'` / `'<a, b>`, module types `'%m/n.t<a>`, tuples and PARTIAL types — named or not, with named, positional and SPREAD
+    fields (`...`, `...'a<t>`), and tuples named after an alias (`'a[...'a, x: t]`) —, function types, unions and intersections, nested WITHOUT BOUND):
     the parser's model reads the printed text back to exactly the same AST and stops exactly at
-    `rest`. Missing cases (the full statement is `RoundTripStatement`): spread fields and
-    `'alias[...]` tuples, process types. For
+    `rest`. Missing case (the full statement is `RoundTripStatement`): process types. For
     these the statement is evaluated on generated ASTs of every constructor by the harness (search,
     not proof). -/
 theorem roundtrip_partial (t : Ty) (hw : WFType t) (hf : t.frag = true) (rest : Str)
@@ -296,6 +295,20 @@ def exampleTy5 : Ty :=
 example : printTy exampleTy5 = "['%list<'int>, '%a/b?.c!, '%m.t<'%n>]".toList := by decide +kernel
 example : parseType (printTy exampleTy5) = .ok exampleTy5 [] := by
   have := roundtrip_partial exampleTy5 (by decide +kernel) (by decide +kernel) [] (by decide +kernel)
+  simpa using this
+
+/-- spread fields and a tuple named after an alias:
+    `'ev[...'ev, at: 'int] | K[..., ...'p<^>] | (...'q, x: [])` -/
+def exampleTy6 : Ty :=
+  .union [
+    .tuple (some "ev".toList) [.spread (some "ev".toList) [], .field (some "at".toList) (.prim .int)] false,
+    .tuple (some "K".toList) [.spread none [], .spread (some "p".toList) [.cycle none]] false,
+    .tuple none [.spread (some "q".toList) [], .field (some "x".toList) (.tuple none [] false)] true]
+
+example : printTy exampleTy6 = "('ev[...'ev, at: 'int] | K[..., ...'p<^>] | (...'q, x: []))".toList := by
+  decide +kernel
+example : parseType (printTy exampleTy6) = .ok exampleTy6 [] := by
+  have := roundtrip_partial exampleTy6 (by decide +kernel) (by decide +kernel) [] (by decide +kernel)
   simpa using this
 
 /-- the side condition is necessary: behind a bare tuple name, a line that starts with `(` makes the
